@@ -71,6 +71,15 @@ func c13Run(t failer, c *c13Case) (errThenOk bool, matchesTwice bool) {
 		data[i] = p.Interface()
 	}
 	hasMatches := strings.Contains(text, "matches")
+	// the history-free meaning of the expression on each datum (reference interpreter): state kept
+	// anywhere in the process - not only in the evaluator - makes a later call deviate from it
+	ast, aerr := c.Expr()
+	wantRef := make([]ref.Set, len(c.Pool))
+	for i, p := range c.Pool {
+		if aerr == nil {
+			wantRef[i] = c.Opts.Env(p).Eval(ast)
+		}
+	}
 	evals := 0
 	lastErrOn := -1
 	for step, h := range c.History {
@@ -97,6 +106,10 @@ func c13Run(t failer, c *c13Case) (errThenOk bool, matchesTwice bool) {
 			if !sameResult(res, rerr, fres, fe) {
 				violation(t, "C13", "TestC13_History", c, "step %d (after history %v): used evaluator returned (%v, %v) on pool[%d], a fresh evaluator returns (%v, %v)\n expr: %s\n datum: %s",
 					step, c.History[:step], res, rerr, i, fres, fe, c.TextQ, c.Pool[i])
+			}
+			if aerr == nil && !wantRef[i].Has(ref.Of(res, rerr)) {
+				violation(t, "C13", "TestC13_History", c, "step %d (after history %v): Evaluate returned (%v, %v) on pool[%d] but the expression denotes %s there, whatever was evaluated before\n expr: %s\n datum: %s",
+					step, c.History[:step], res, rerr, i, wantRef[i], c.TextQ, c.Pool[i])
 			}
 			evals++
 			if rerr != nil {
@@ -183,6 +196,15 @@ func TestC13_History(t *testing.T) {
 		for i := range pool {
 			pool[i] = uni.GenNode(t, ty, p, 3)
 		}
+		// same Go type, different shape: some pool members are pool[0] with one entry of an
+		// interface-valued map removed or replaced (what a cache keyed on the type would confuse)
+		if ty.K == uni.KMap && ty.Elem.K == uni.KIface {
+			for i := 1; i < n; i++ {
+				if rapid.Bool().Draw(t, "reshape") {
+					pool[i] = reshape(t, pool[0])
+				}
+			}
+		}
 		o := Opts{}
 		switch rapid.IntRange(0, 5).Draw(t, "opt") {
 		case 0:
@@ -202,6 +224,13 @@ func TestC13_History(t *testing.T) {
 			e = g.Quant(2)
 		default:
 			e = g.Expr(rapid.IntRange(1, 3).Draw(t, "depth"))
+		}
+		if rapid.IntRange(0, 3).Draw(t, "plantMiss") == 0 {
+			// a selector whose last key is absent under a map of pool[0]
+			if _, parts, ok := plantMiss(t, pool[0]); ok {
+				m := &bx.Match{Sel: bx.Sel{Parts: parts}, Op: bx.Op(rapid.IntRange(0, int(bx.NumOps)-1).Draw(t, "missOp")), Lit: "a"}
+				e = &bx.Or{L: m, R: e}
+			}
 		}
 		rend := bx.NewRenderer(chooser(t))
 		rend.MaxParen = 1
@@ -223,4 +252,35 @@ func TestC13_History(t *testing.T) {
 			map[string]string{"expr": strconv.QuoteToASCII(text), "pool[0]": pool[0].String(), "history": fmt.Sprint(c.History)},
 			fmt.Sprintf("err-then-ok:%v", errThenOk), fmt.Sprintf("matches-twice:%v", matchesTwice), fmt.Sprintf("steps:%d", len(c.History)/10*10))
 	})
+}
+
+// reshape returns a copy of an interface-valued map node with one entry (possibly nested)
+// removed, nulled or replaced by a scalar / an empty map.
+func reshape(t *rapid.T, n *uni.Node) *uni.Node {
+	c := n.Clone()
+	cur := c
+	for depth := 0; depth < 3; depth++ {
+		if cur.T.K != uni.KMap || len(cur.Elems) == 0 {
+			break
+		}
+		i := rapid.IntRange(0, len(cur.Elems)-1).Draw(t, "reshapeAt")
+		child := cur.Elems[i].Dyn()
+		if child != nil && child.T.K == uni.KMap && child.T.Elem.K == uni.KIface && rapid.Bool().Draw(t, "descend") {
+			cur = child
+			continue
+		}
+		switch rapid.IntRange(0, 3).Draw(t, "reshapeHow") {
+		case 0:
+			cur.Keys = append(cur.Keys[:i:i], cur.Keys[i+1:]...)
+			cur.Elems = append(cur.Elems[:i:i], cur.Elems[i+1:]...)
+		case 1:
+			cur.Elems[i] = uni.NilIface()
+		case 2:
+			cur.Elems[i] = uni.InIface(uni.Str("scalar"))
+		default:
+			cur.Elems[i] = uni.InIface(&uni.Node{T: uni.MapOf(uni.Scalar(uni.KString), uni.Iface())})
+		}
+		break
+	}
+	return c
 }
